@@ -313,3 +313,31 @@ def subst_params(t, mapping, depth=0):
     if k == "phi":
         return ("phi", tuple(subst_params(x, mapping, depth + 1) for x in t[1]))
     return t
+
+
+def lift(P, body, term, depth=0):
+    """rewrite captured-variable accesses into the creating body's vocabulary, repeatedly:
+    returns (body, term) where term no longer starts at a closure/coroutine environment field (if resolvable)"""
+    from .prov import norm, access_path
+    t = norm(term)
+    if depth > 6 or body.kind not in ("closure", "coroutine"):
+        return body, t
+    # find the base of a field chain
+    chain = []
+    x = t
+    while x[0] in ("field", "payload"):
+        chain.append(x)
+        x = norm(x[1] if x[0] == "field" else x[2])
+    if x == ("param", 1) and chain and chain[-1][0] == "field" and chain[-1][2].isdigit():
+        cb = capture_binding(P, body)
+        if cb is None:
+            return body, t
+        parent, ups = cb
+        k = int(chain[-1][2])
+        if k >= len(ups):
+            return body, t
+        base = norm(ups[k])
+        for c in reversed(chain[:-1]):
+            base = ("field", base, c[2]) if c[0] == "field" else ("payload", c[1], base)
+        return lift(P, parent, base, depth + 1)
+    return body, t
